@@ -332,7 +332,7 @@ def text_diff(a, b, limit=4):
 # ------------------------------------------------------------------------------ driver
 
 TIERS = {
-    "quick": {"produce": (4, 12), "wall_cap": 150, "max_files": 520},
+    "quick": {"produce": (4, 12), "wall_cap": 150, "max_files": 760},
     "thorough": {"produce": (40, 60), "wall_cap": 3000, "max_files": 100000},
 }
 
@@ -410,15 +410,36 @@ def prepare(master, tier, cfg):
             uniq.append(b)
     bases = uniq
     if len(bases) > cfg["max_files"]:
-        # keep every repo file and every host-magic file; sample the rest by seed
+        # priority tiers, then a seeded sample of the rest: every repo file; the stress programs from EVERY producer
+        # (they carry the unusual constants and layouts; 2.7 / 3.6 / 3.7 have no host of their own); sibling-magic
+        # twins; the artificial variants; then host-magic files; then whatever fits
         rng = core.SeedStream(core.derive_seed(master, PROP, 0, "subset"))
         hm = set(W["host_magic"].values())
-        keep = [b for b in bases if b.origin == "repo" or b.magic_int in hm or b.origin.startswith("twin")]
-        rest = [b for b in bases if not (b.origin == "repo" or b.magic_int in hm or b.origin.startswith("twin"))]
-        room = max(0, cfg["max_files"] - len(keep))
-        keep += rng.sample(rest, min(room, len(rest)))
-        if len(keep) > cfg["max_files"]:
-            keep = rng.sample(keep, cfg["max_files"])
+
+        def tier(b):
+            stress = "_s0" in b.name
+            if b.origin == "repo":
+                return 0
+            if stress and (".ts." in b.name):
+                return 1
+            if b.origin.startswith("twin"):
+                return 2
+            if stress or ".dup." in b.name or ".exc." in b.name:
+                return 3
+            if b.magic_int in hm:
+                return 4
+            return 5
+
+        tiers = {}
+        for b in bases:
+            tiers.setdefault(tier(b), []).append(b)
+        keep = []
+        for t in sorted(tiers):
+            room = cfg["max_files"] - len(keep)
+            if room <= 0:
+                break
+            grp = tiers[t]
+            keep += grp if len(grp) <= room else rng.sample(grp, room)
         bases = sorted(keep, key=lambda b: (b.origin, b.path))
     W["bases"] = bases
     n = len(bases)
